@@ -226,6 +226,9 @@ def bind_args(fv, c, node, st, spec, recv, closure=False):
     for k in node.keywords:
         if k.arg is None:
             fv.err(node, '**kwargs')
+        if k.arg not in [pn for pn, _ in params]:
+            # a keyword the contract does not know changes the callee's behaviour in a way the contract cannot describe
+            fv.err(node, 'keyword argument %s is not a parameter of the contract of %s' % (k.arg, c.qual))
         vals[k.arg] = arg(k.value)
     # defaults from the real definition
     missing = [pn for pn, _ in params if pn not in vals]
